@@ -570,7 +570,7 @@ impl PrefixOps for Prefix4 {
 
 impl Match<std::net::Ipv4Addr> for Prefix4 {
     fn contains(&self, ip: std::net::Ipv4Addr) -> bool {
-        u32::from(ip) & u32::from(self.netmask()) == u32::from(self.addr)
+        u32::from(ip) & u32::from(self.netmask()) == u32::from(self.network())
     }
 }
 
@@ -626,7 +626,7 @@ impl PrefixOps for Prefix6 {
 
 impl Match<std::net::Ipv6Addr> for Prefix6 {
     fn contains(&self, ip: std::net::Ipv6Addr) -> bool {
-        u128::from(ip) & u128::from(self.netmask()) == u128::from(self.addr)
+        u128::from(ip) & u128::from(self.netmask()) == u128::from(self.network())
     }
 }
 
